@@ -1,1 +1,8 @@
 // hook file for ntp-proto/src/server.rs: declares the per-property harness modules
+// --- builder P2a (C15, C20, C21, C22): shared scenario engine + one driver module per property
+#[cfg(any(verif_all, verif_c15, verif_c20, verif_c21, verif_c22))]
+#[path = "/verif/harness/ntp-proto/p2a_common.rs"]
+mod p2a_common;
+#[cfg(any(verif_all, verif_c20))]
+#[path = "/verif/harness/ntp-proto/c20.rs"]
+mod c20;
